@@ -6,6 +6,7 @@ equal fields (cross-checked by the independent ref_header reader); every
 single-field corruption, omission and transposition must raise OFXHeaderError.
 """
 import io
+import re
 
 from vf.oracles import ref_header
 
@@ -167,6 +168,14 @@ def corruptions(ctx, H, rng, version1, version2):
             "OLDFILEUID": [long37, long60],
             "NEWFILEUID": [long37, long60],
         }
+        # fragments and doublings of each field's legal tokens (a validator that tests containment instead of equality takes them)
+        legal = {"DATA": ["OFXSGML"], "SECURITY": ["NONE", "TYPE1"], "ENCODING": ["USASCII", "UNICODE", "UTF-8"], "CHARSET": ["ISO-8859-1", "1252", "NONE"],
+                 "COMPRESSION": ["NONE"], "OFXHEADER": ["100"]}
+        for field, toks in legal.items():
+            frags = set()
+            for t in toks:
+                frags.update({t[:-1], t[1:], t[1:-1], t[:3], t[-3:], t + t, t[0]})
+            bad_values[field] = bad_values[field] + sorted(f for f in frags if f and f not in toks and re.fullmatch(r"[A-Za-z0-9-]+", f))
         for field, bads in bad_values.items():
             for bad in bads:
                 must_refuse(ctx, H, v1_text(v1_lines(version1, **{field: bad}), sep), f"{field}={bad[:12]}", "v1")
